@@ -930,13 +930,28 @@ fn sets_for(has_key: bool) -> Vec<(usize, KeyClass)> {
 
 struct Main {
     maxlen: u32,
-    /// thorough tier, space "deep": the deep treatment of every table and the larger record-set family
-    deep: bool,
+    treat: Treat,
+}
+
+/// How the tables of one schema are chosen and treated.
+#[derive(Clone, Copy, PartialEq)]
+enum Treat {
+    /// quick tier (and space five): the record sets of `sets_for`, reference layouts alternating
+    /// between pooled and copy-per-cell, rotating selection of rayon thread classes
+    Base,
+    /// thorough tier, space main: as `Base`, but a schema with String cells gets every record set
+    /// under each of the four reference layouts
+    BaseAllLayouts,
+    /// thorough tier, spaces deep / deep4 / ladder: full product of the given record counts x key
+    /// order x every distinguishable layout, deep treatment of every table
+    Deep(&'static [usize]),
 }
 
 /// record counts of the deep treatment: with pools of 1, 2, 3, 4 and 7 threads the chunk size
 /// max(1, n / threads) and the remainder n % chunk take every combination that occurs below 18
 const N_DEEP: [usize; 14] = [0, 1, 2, 3, 4, 5, 6, 7, 8, 9, 12, 13, 16, 17];
+/// record counts of the deep treatment of four-field schemas
+const N_DEEP4: [usize; 7] = [0, 1, 2, 3, 5, 8, 13];
 /// record counts of the field-count ladder
 const N_LADDER: [usize; 7] = [0, 1, 2, 5, 9, 17, 40];
 
@@ -968,30 +983,41 @@ fn layouts_for(fields: &[Kind]) -> &'static [Layout] {
 }
 
 /// One schema: all its key options and record sets (the case of spaces main / deep / five / ladder).
-/// `deep_ns`: None = the record sets and rotating selections of the quick tier; Some(ns) = full
-/// product of ns x key order x every distinguishable reference layout with the deep treatment.
-fn run_schema(fields: Vec<Kind>, deep_ns: Option<&[usize]>) -> CaseResult {
+fn run_schema(fields: Vec<Kind>, treat: Treat) -> CaseResult {
     let mut r = CaseResult::new();
     r.key = format!("{:?}", fields.iter().map(|k| k.label()).collect::<Vec<_>>());
     let sc = Scratch::new("c17");
     let out;
     {
-        let mut cx = Cx { r: &mut r, seen: HashSet::new(), flags: BTreeSet::new(), sc: &sc, all_classes: false, rot: 0, typed: true, deep: deep_ns.is_some() };
+        let mut cx = Cx { r: &mut r, seen: HashSet::new(), flags: BTreeSet::new(), sc: &sc, all_classes: false, rot: 0, typed: true, deep: matches!(treat, Treat::Deep(_)) };
         let mut keys: Vec<Option<usize>> = vec![None];
         keys.extend((0..fields.len()).filter(|&p| fields[p].keyable()).map(Some));
         let mut t = 0usize;
         for key in keys {
             let sch = Sch { fields: fields.clone(), key };
             cx.r.count("schema_key_combinations", 1);
-            match deep_ns {
-                None => {
+            match treat {
+                Treat::Base => {
                     for (n, kc) in sets_for(key.is_some()) {
                         let layout = if t % 2 == 0 { Layout::Pooled } else { Layout::PerCell };
                         t += 1;
                         run_table(&mut cx, &sch, n, kc, layout);
                     }
                 }
-                Some(ns) => {
+                Treat::BaseAllLayouts => {
+                    for (n, kc) in sets_for(key.is_some()) {
+                        if layouts_for(&fields).len() == 4 {
+                            for &layout in &LAYOUTS_ALL {
+                                run_table(&mut cx, &sch, n, kc, layout);
+                            }
+                        } else {
+                            let layout = if t % 2 == 0 { Layout::Pooled } else { Layout::PerCell };
+                            t += 1;
+                            run_table(&mut cx, &sch, n, kc, layout);
+                        }
+                    }
+                }
+                Treat::Deep(ns) => {
                     for (n, kc) in sets_deep(key.is_some(), ns) {
                         for &layout in layouts_for(&fields) {
                             run_table(&mut cx, &sch, n, kc, layout);
@@ -1055,18 +1081,22 @@ impl Space for Main {
         let f = self.schema(i);
         let s = Sch { fields: f, key: None };
         let keyable: Vec<usize> = (0..s.fields.len()).filter(|&p| s.fields[p].keyable()).collect();
-        if self.deep {
+        if let Treat::Deep(ns) = self.treat {
             return json!({"fields": s.labels(), "record_size": s.record_size(), "key_options": {"none": true, "positions": keyable}, "treatment": "deep",
-               "record_sets": format!("n in {:?} x key order {{sorted,unsorted,duplicate}} x every distinguishable string layout", N_DEEP)});
+               "record_sets": format!("n in {:?} x key order {{sorted,unsorted,duplicate}} x every distinguishable string layout", ns)});
+        }
+        if self.treat == Treat::BaseAllLayouts {
+            return json!({"fields": s.labels(), "record_size": s.record_size(), "key_options": {"none": true, "positions": keyable},
+               "record_sets": "n in {0,1,2,7} x key order {sorted,unsorted,duplicate} x string layout (all four when the schema has String cells)"});
         }
         json!({"fields": s.labels(), "record_size": s.record_size(), "key_options": {"none": true, "positions": keyable},
                "record_sets": "n in {0,1,2,7} x key order {sorted,unsorted,duplicate} x string layout"})
     }
     fn run(&self, i: u64) -> CaseResult {
-        run_schema(self.schema(i), if self.deep { Some(&N_DEEP) } else { None })
+        run_schema(self.schema(i), self.treat)
     }
     fn case_timeout(&self) -> u64 {
-        if self.deep {
+        if matches!(self.treat, Treat::Deep(_)) {
             120
         } else {
             60
@@ -1108,7 +1138,39 @@ impl Space for Five {
                "record_sets": "n in {0,1,2,7} x key order {sorted,unsorted,duplicate} x string layout"})
     }
     fn run(&self, i: u64) -> CaseResult {
-        run_schema(Self::schema(i), None)
+        run_schema(Self::schema(i), Treat::Base)
+    }
+}
+
+// ------------------------------------------------------------------ space "deep4" (thorough)
+
+/// four-field schemas over the 12 kinds of space five, deep treatment
+struct Deep4;
+impl Deep4 {
+    fn schema(mut i: u64) -> Vec<Kind> {
+        let mut f = vec![Kind::from_index(0); 4];
+        for p in (0..4).rev() {
+            f[p] = Five::kind(i % FIVE_KINDS);
+            i /= FIVE_KINDS;
+        }
+        f
+    }
+}
+impl Space for Deep4 {
+    fn len(&self) -> u64 {
+        FIVE_KINDS.pow(4)
+    }
+    fn describe(&self, i: u64) -> J {
+        let s = Sch { fields: Self::schema(i), key: None };
+        let keyable: Vec<usize> = (0..s.fields.len()).filter(|&p| s.fields[p].keyable()).collect();
+        json!({"fields": s.labels(), "record_size": s.record_size(), "key_options": {"none": true, "positions": keyable}, "treatment": "deep",
+               "record_sets": format!("n in {:?} x key order {{sorted,unsorted,duplicate}} x every distinguishable string layout", N_DEEP4)})
+    }
+    fn run(&self, i: u64) -> CaseResult {
+        run_schema(Self::schema(i), Treat::Deep(&N_DEEP4))
+    }
+    fn case_timeout(&self) -> u64 {
+        120
     }
 }
 
@@ -1150,7 +1212,7 @@ impl Space for Ladder {
                "record_sets": format!("n in {:?} x key order {{sorted,unsorted,duplicate}} x every distinguishable string layout", N_LADDER)})
     }
     fn run(&self, i: u64) -> CaseResult {
-        run_schema(Self::schema(i), Some(&N_LADDER))
+        run_schema(Self::schema(i), Treat::Deep(&N_LADDER))
     }
     fn case_timeout(&self) -> u64 {
         240
@@ -1227,8 +1289,8 @@ impl Tables {
                 }
             }
         }
-        // ---- record counts: the three 24-field schemas x key x count ladder x key order x every layout
-        for w in 0..3 {
+        // ---- record counts: the three 24-field schemas and a 24-field schema of 32-bit cells x key x count ladder x key order x every layout
+        for w in [0, 1, 3, 2] {
             for key in [false, true] {
                 for n in COUNT_LADDER {
                     let kcs: &[KeyClass] = if key { &[KeyClass::Sorted, KeyClass::Unsorted, KeyClass::Dup] } else { &[KeyClass::Unsorted] };
@@ -1480,6 +1542,41 @@ impl Space for Versions {
 
 // ------------------------------------------------------------------ stand-alone reproductions
 
+/// `--repro wdb5-offsets`: the lazy / parallel / mmap-string-block paths on a WDB5 container
+/// (public API only; the table is two records of [UInt32, String])
+fn repro_wdb5() {
+    println!("== WDB5 container: lazy / parallel / mmap string_block assume the 20-byte WDBC header");
+    let mut sch = Schema::new("T");
+    sch.add_field(SchemaField::new("id", FieldType::UInt32));
+    sch.add_field(SchemaField::new("name", FieldType::String));
+    let mut f = b"WDB5".to_vec();
+    // record_count, field_count, record_size, string_block_size, table hash, layout hash, min id, max id, locale, copy table size
+    for x in [2u32, 2, 8, 5, 0x1234_5678, 0x9ABC_DEF0, 1, 2, 0xFFFF_FFFF, 0] {
+        f.extend_from_slice(&x.to_le_bytes());
+    }
+    f.extend_from_slice(&[0, 0, 0, 0]); // flags, id index: 48 bytes of header
+    for (id, name) in [(0x11u32, 1u32), (0x22, 3)] {
+        f.extend_from_slice(&id.to_le_bytes());
+        f.extend_from_slice(&name.to_le_bytes());
+    }
+    f.extend_from_slice(b"\0a\0b\0");
+    let p = DbcParser::parse_bytes(&f).unwrap().with_schema(sch.clone()).unwrap();
+    let rs = p.parse_records().unwrap();
+    println!("   eager   : {:?}", rs.records().iter().map(raw_rec).collect::<Vec<_>>());
+    let sb = Arc::new(rs.string_block().clone());
+    let lazy = LazyDbcParser::new(p.data(), p.header(), p.schema(), sb.clone());
+    println!("   lazy    : {:?}", lazy.record_iterator().map(|x| x.map(|r| raw_rec(&r)).map_err(|e| e.to_string())).collect::<Vec<_>>());
+    println!("   lazy[1] : {:?}", lazy.get_record(1).map(|r| raw_rec(&r)).map_err(|e| e.to_string()));
+    let pr = wow_cdbc::parse_records_parallel(&f, p.header(), p.schema(), sb);
+    println!("   parallel: {:?}", pr.map(|s| s.records().iter().map(raw_rec).collect::<Vec<_>>()).map_err(|e| e.to_string()));
+    let sc = Scratch::new("c17-repro");
+    let path = sc.path("t.db2");
+    std::fs::write(&path, &f).unwrap();
+    let mm = MmapDbcFile::open(&path).unwrap();
+    println!("   eager string block {:?}, mmap string_block() {:?}", rs.string_block().data(), mm.string_block().map(|b| b.data().to_vec()).map_err(|e| e.to_string()));
+    println!("   expected: all four lines show [[U32(17), Ref(1)], [U32(34), Ref(3)]] and both string blocks are [0, 97, 0, 98, 0]");
+}
+
 fn repro() {
     use std::sync::Arc;
     println!("== F1: DbcWriter output for a schema with an array field is refused by with_schema");
@@ -1565,11 +1662,12 @@ fn build(name: &str, _arg: &str, tier: Tier) -> Box<dyn Space> {
     POOL_COUNT.store(tier.pick(3, 4), std::sync::atomic::Ordering::Relaxed);
     pools();
     match name {
-        "main" => Box::new(Main { maxlen: tier.pick(3, 4), deep: false }),
+        "main" => Box::new(Main { maxlen: tier.pick(3, 4), treat: tier.pick(Treat::Base, Treat::BaseAllLayouts) }),
         "extra" => Box::new(ExtraSpace::new(tier)),
         "versions" => Box::new(Versions { thorough: tier == Tier::Thorough }),
         // thorough tier only
-        "deep" => Box::new(Main { maxlen: 3, deep: true }),
+        "deep" => Box::new(Main { maxlen: 3, treat: Treat::Deep(&N_DEEP) }),
+        "deep4" => Box::new(Deep4),
         "five" => Box::new(Five),
         "ladder" => Box::new(Ladder),
         "tables" => Box::new(Tables::new()),
@@ -1592,8 +1690,15 @@ fn sweep_stale_scratch() {
 }
 
 fn main() {
-    if std::env::args().any(|a| a == "--repro") {
-        repro();
+    if let Some(p) = std::env::args().position(|a| a == "--repro") {
+        // --repro [name]: stand-alone reproductions against the public API
+        match std::env::args().nth(p + 1).as_deref() {
+            Some("wdb5-offsets") => repro_wdb5(),
+            _ => {
+                repro();
+                repro_wdb5();
+            }
+        }
         return;
     }
     if std::env::args().any(|a| a == "--bench") {
@@ -1630,15 +1735,15 @@ fn main() {
     let thorough = c.tier == Tier::Thorough;
     if thorough {
         c.rule.push_str(&format!(
-            " THOROUGH TIER ADDITIONS. The versions space becomes 8 containers (WDB2 basic/extended/index arrays of 3, build threshold 12880 and 12881, index arrays of 1 and of 256 entries, WDB5) x 6 schemas x n in {:?} with pools of 4(global),1,2,3,7 threads. Deep treatment of a table (spaces deep, ladder, tables) = the steps above with parse_records_parallel under all five pools on both files, plus: Record::get_value_by_name against get_value on the eager, lazy and parallel records; lazy get_record past the end; the writer fed with explicit and record-set schema from every record-set state (cached string block, after create_sorted_key_map, mmap set, parallel set) and, as second write, from the eager / mmap / parallel parse of its own first output (write->parse->write->parse): an output byte-identical to the judged first output is accepted, any other output is judged in full like the first; schema-less access (tables whose cells are all 32 bits wide): eager, lazy iterator, lazy get_record, mmap parser and parallel parse without schema must return the 32-bit words of the records (independent reader) on the reference file and on the first output, DbcWriter with a flat UInt32 schema must reproduce the record bytes, size identity and parse back to the same words. Four reference string layouts: pooled-sorted, copy-per-cell, suffix-shared (a string that is a byte suffix of another is referenced inside it; \"\" is referenced at the last terminator), scattered (reverse order with unreferenced filler strings). space deep: EVERY schema of 1..=3 fields over the 36 kinds x every key option x n in {:?} x key order (keyed, n>=2: sorted, unsorted, duplicate) x every layout that yields a different file (4 with a String cell, else 2). space five: EVERY five-field schema over 12 kinds (9 scalar types, UInt8[2], UInt16[2], String[2]) with the record sets of space main. space ladder: field counts 1..=24 x type cycle started at each of the 9 types x 4 array patterns (none; [2] on every third field; [1]/[3] on odd fields with type stride 2; reverse cycle with [4] on every fifth field), key at none and every keyable position, n in {:?}. space tables (one schema, listed tables): array lengths {:?} x 9 element types x 4 shapes (alone; between UInt8 and UInt16; after a UInt32 key and before a String; two arrays before an Int32 key) x n in {{0,1,2,7}}; string pools (1-4 byte UTF-8 / DEL / space / 255 and 256 byte strings; strings of 65535, 65536, 70000 bytes and 65534 bytes + a two-byte sequence; all cells equal; all cells distinct) x 4 string schemas x n in {:?} (64KiB pool: n<=13) x 4 layouts; record counts {:?} x three 24-field schemas x (no key | key x sorted, unsorted, duplicate with keys straddling the sign bit and guaranteed duplicates) x 4 layouts.",
-            VERSION_COUNTS_THOROUGH, N_DEEP, N_LADDER, ARRAY_LENS, STRING_COUNTS, COUNT_LADDER
+            " THOROUGH TIER ADDITIONS. In space main a schema with String cells gets every record set under each of the four reference string layouts (other schemas: alternating pooled / copy-per-cell as in the quick tier). The versions space becomes 8 containers (WDB2 basic/extended/index arrays of 3, build threshold 12880 and 12881, index arrays of 1 and of 256 entries, WDB5) x 6 schemas x n in {:?} with pools of 4(global),1,2,3,7 threads. Deep treatment of a table (spaces deep, ladder, tables) = the steps above with parse_records_parallel under all five pools on both files, plus: Record::get_value_by_name against get_value on the eager, lazy and parallel records; lazy get_record past the end; the writer fed with explicit and record-set schema from every record-set state (cached string block, after create_sorted_key_map, mmap set, parallel set) and, as second write, from the eager / mmap / parallel parse of its own first output (write->parse->write->parse): an output byte-identical to the judged first output is accepted, any other output is judged in full like the first; schema-less access (tables whose cells are all 32 bits wide): eager, lazy iterator, lazy get_record, mmap parser and parallel parse without schema must return the 32-bit words of the records (independent reader) on the reference file and on the first output, DbcWriter with a flat UInt32 schema must reproduce the record bytes, size identity and parse back to the same words. Four reference string layouts: pooled-sorted, copy-per-cell, suffix-shared (a string that is a byte suffix of another is referenced inside it; \"\" is referenced at the last terminator), scattered (reverse order with unreferenced filler strings). space deep: EVERY schema of 1..=3 fields over the 36 kinds x every key option x n in {:?} x key order (keyed, n>=2: sorted, unsorted, duplicate) x every layout that yields a different file (4 with a String cell, else 2). space deep4: EVERY four-field schema over 12 kinds (9 scalar types, UInt8[2], UInt16[2], String[2]) x every key option x n in {:?} x key order x every distinguishable layout, deep treatment. space five: EVERY five-field schema over 12 kinds (9 scalar types, UInt8[2], UInt16[2], String[2]) with the record sets of space main. space ladder: field counts 1..=24 x type cycle started at each of the 9 types x 4 array patterns (none; [2] on every third field; [1]/[3] on odd fields with type stride 2; reverse cycle with [4] on every fifth field), key at none and every keyable position, n in {:?}. space tables (one schema, listed tables): array lengths {:?} x 9 element types x 4 shapes (alone; between UInt8 and UInt16; after a UInt32 key and before a String; two arrays before an Int32 key) x n in {{0,1,2,7}}; string pools (1-4 byte UTF-8 / DEL / space / 255 and 256 byte strings; strings of 65535, 65536, 70000 bytes and 65534 bytes + a two-byte sequence; all cells equal; all cells distinct) x 4 string schemas x n in {:?} (64KiB pool: n<=13) x 4 layouts; record counts {:?} x four 24-field schemas (the three of space extra and one of 32-bit cells only) x (no key | key x sorted, unsorted, duplicate with keys straddling the sign bit and guaranteed duplicates) x 4 layouts.",
+            VERSION_COUNTS_THOROUGH, N_DEEP, N_DEEP4, N_LADDER, ARRAY_LENS, STRING_COUNTS, COUNT_LADDER
         ));
         c.assume("schema-less access is judged only on tables whose cells are all 32 bits wide (record_size = 4 x header field_count); for packed 8/16-bit tables the schema-less paths are not exercised. A schema-less record set written without any schema is expected to be refused (counted, not judged)");
         c.assume("writer outputs from different record-set states of the same table need not be byte-identical: a differing output is judged in full against the ground truth instead");
         c.assume("array fields of length 0 are legal schema fields (zero elements, zero bytes); tables whose records would be zero bytes long are only built with zero records");
         c.assume("a string reference may point at any byte of the string block and denotes the bytes up to the next terminator (suffix-shared reference layout)");
     }
-    let spaces: &[&str] = if thorough { &["main", "extra", "versions", "deep", "five", "ladder", "tables"] } else { &["main", "extra", "versions"] };
+    let spaces: &[&str] = if thorough { &["main", "extra", "versions", "deep", "deep4", "five", "ladder", "tables"] } else { &["main", "extra", "versions"] };
     // development aid (timing of single spaces); such a run is marked in the evidence
     let only = std::env::var("C17_ONLY_SPACES").ok();
     if let Some(o) = &only {
@@ -1657,14 +1762,16 @@ fn main() {
         c.extra_cov.insert(
             "axes_thorough".into(),
             json!({
-                "deep": {"schemas": Main { maxlen: 3, deep: true }.len(), "record_counts": N_DEEP, "key_order_classes": 3, "string_layouts": ["pooled-sorted", "copy-per-cell", "suffix-shared", "scattered-with-filler"],
+                "main": {"string_layouts_for_schemas_with_string_cells": 4},
+                "deep4": {"schemas": Deep4.len(), "field_kinds": FIVE_KINDS, "fields": 4, "record_counts": N_DEEP4},
+                "deep": {"schemas": Main { maxlen: 3, treat: Treat::Deep(&N_DEEP) }.len(), "record_counts": N_DEEP, "key_order_classes": 3, "string_layouts": ["pooled-sorted", "copy-per-cell", "suffix-shared", "scattered-with-filler"],
                          "rayon_thread_classes": [4, 1, 2, 3, 7], "writer_feed_states": ["eager", "eager+cached strings", "eager+sorted key map", "mmap", "parallel", "second write from eager", "second write from mmap", "second write from parallel"],
                          "writer_schema_sources": 2, "schemaless_paths": ["eager", "lazy iterator", "lazy get_record", "mmap parser", "parallel", "write with flat UInt32 schema -> parse"]},
                 "five": {"schemas": Five.len(), "field_kinds": FIVE_KINDS, "fields": 5},
                 "ladder": {"cases": Ladder.len(), "field_counts": 24, "type_rotations": 9, "array_patterns": 4, "record_counts": N_LADDER},
                 "tables": {"array_length_cases": grp("array lengths"), "array_lengths": ARRAY_LENS, "array_element_types": 9, "array_shapes": 4,
                            "string_pool_cases": grp("string pools"), "string_pools": STR_POOLS_THOROUGH.iter().map(|p| p.name()).collect::<Vec<_>>(), "string_schemas": 4, "string_record_counts": STRING_COUNTS,
-                           "record_count_cases": grp("record counts"), "record_count_ladder": COUNT_LADDER, "wide_schemas": 3, "key_options": 4},
+                           "record_count_cases": grp("record counts"), "record_count_ladder": COUNT_LADDER, "wide_schemas": 4, "key_options": 4},
                 "versions": {"containers": VERSION_KINDS_THOROUGH.iter().map(|k| k.name()).collect::<Vec<_>>(), "schemas": 6, "record_counts": VERSION_COUNTS_THOROUGH},
             }),
         );
